@@ -12,6 +12,8 @@ from dilute to percolating, periodic (triclinic) and not; scalar, per-pair dict 
 per-atom radius cutoffs; size filters int / tuple / None; default arrays None / constant
 / arbitrary negative / arbitrary non-negative.
 Cells are fully, partially (slab, wire) or not periodic.
+Dict cutoffs also name species by atomic number; reinsertion is also run with an isotope substitution on the atoms
+that stayed.
 """
 from __future__ import annotations
 
